@@ -103,6 +103,7 @@ func c04(c *eng.Ctx, r *eng.Report) {
 		"R4.5/R4.6 RevertToSnapshot undoes entries from the last down to the snapshot index inclusive and truncates both journal and revision list; Snapshot records len(journal). " +
 		"R4.7 every state read that feeds a member of a journal entry happens before any write (direct or through a package callee) to the same field in that mutator — the entry captures the pre-state. " +
 		"R4.8 an account object is always either in the dirty set or has its one-shot onDirty hook armed: whoever takes an address out of accountObjectsDirty re-arms the hook of that object or drops the object from the cache (undo of a touch, undo of a creation, Commit), whoever replaces the dirty set replaces the object cache with it, and the hook is cleared only right after it was called — otherwise writes made after a revert are never marked dirty and the root computed afterwards lacks them. " +
+		"R4.10 every Snapshot() hands out a fresh revision: each return is preceded on every path by the increment of nextRevisionID and an append to validRevisions, and returns the id that was appended — two live snapshots never share an id (reverting the inner one would consume the outer one's revision); and every argument of a restoring setter call in an undo comes from what the entry recorded, never a constant (an entry that no longer carries the previous value cannot restore it); " +
 		"R4.9 the access-list undo helpers are the exact inverses of what was journaled: an address leaves accessList.addresses only in DeleteAddress (the inverse of AddAddress), and DeleteSlot — the inverse of adding a slot to an address already present — only resets that address's slot index to -1, it never removes the address. " +
 		"Not decided: value equality of every query after revert; equality of state roots."
 	r.Assume = []string{"state reachable through the account package's API lives in the fields listed in rules/c04.go (journaledFields)", "sync.Map/maps are only written through the recognised instructions"}
@@ -114,6 +115,7 @@ func c04(c *eng.Ctx, r *eng.Report) {
 	c04PreState(c, r)
 	c04DirtyOrArmedAs(c, r, "R4.8")
 	c04AccessListInverses(c, r)
+	c04FreshRevision(c, r)
 }
 
 func shortStruct(t string) string { return strings.TrimPrefix(t, "storage/account.") }
@@ -1093,4 +1095,95 @@ func c04AccessListInverses(c *eng.Ctx, r *eng.Report) {
 		}
 	}
 	r.Check(nDel >= 1 && nSet >= 1, rule, "access-list:sites", "", fmt.Sprintf("%d deletions from addresses, %d index resets in DeleteSlot", nDel, nSet), fmt.Sprintf("access-list undo helpers not recognised (%d deletions from addresses, %d index resets in DeleteSlot; 1 and 1 expected)", nDel, nSet))
+}
+
+// c04FreshRevision: nested frames take a snapshot each; the inner revert pops
+// its revision from validRevisions. If both frames hold the same id the outer
+// revert finds nothing to revert to.
+func c04FreshRevision(c *eng.Ctx, r *eng.Report) {
+	const rule = "R4.10"
+	r.Min(rule, 2)
+	fn := c.Func(acctPkg, "(*AccountDB).Snapshot")
+	if r.Anchor(fn != nil, rule, "(*AccountDB).Snapshot") {
+		inc := eng.FieldStores(fn, "storage/account.AccountDB", "nextRevisionID")
+		app := eng.FieldStores(fn, "storage/account.AccountDB", "validRevisions")
+		bad := ""
+		for _, re := range eng.Returns(fn) {
+			if !eng.MustPassBefore(fn, re.Ret, inc) || !eng.MustPassBefore(fn, re.Ret, app) {
+				bad = "the return at " + c.Pos(re.Ret.Pos()) + " can be reached without a new revision having been allocated and recorded"
+			}
+			if _, f := eng.FieldOf(unload(re.Incoming(0))); f != "nextRevisionID" {
+				bad = "the return at " + c.Pos(re.Ret.Pos()) + " hands out " + eng.Desc(re.Incoming(0)) + " instead of the id just allocated"
+			}
+		}
+		r.Check(bad == "" && len(inc) > 0 && len(app) > 0, rule, "Snapshot:fresh-revision", c.Pos(fn.Pos()), "every return allocates, records and returns a new id", "Snapshot: "+bad+": two live snapshots can then share one revision id — RevertToSnapshot of the inner frame removes that revision, and the outer frame's revert panics (`revision id cannot be reverted`) with its writes left in place")
+	}
+	// restoring setters are fed from the entry
+	p := c.TPkg(acctPkg)
+	if p == nil {
+		return
+	}
+	names := make([]string, 0, len(undoPairs))
+	for n := range undoPairs {
+		names = append(names, n)
+	}
+	sort.Strings(names)
+	checked := 0
+	for _, n := range names {
+		undo := c.Func(acctPkg, n+".undo")
+		if undo == nil || len(undo.Params) == 0 {
+			continue
+		}
+		recv := undo.Params[0]
+		fromEntry := func(v ssa.Value) bool {
+			seen := map[ssa.Value]bool{}
+			var walk func(x ssa.Value, d int) bool
+			walk = func(x ssa.Value, d int) bool {
+				if x == nil || d > 8 || seen[x] {
+					return false
+				}
+				seen[x] = true
+				if x == ssa.Value(recv) {
+					return true
+				}
+				if a, isA := x.(*ssa.Alloc); isA {
+					// the spilled copy of the value receiver
+					for _, ref := range *a.Referrers() {
+						if st, isS := ref.(*ssa.Store); isS && st.Addr == ssa.Value(a) && st.Val == ssa.Value(recv) {
+							return true
+						}
+					}
+					return false
+				}
+				if in, isI := x.(ssa.Instruction); isI {
+					var ops []*ssa.Value
+					for _, o := range in.Operands(ops) {
+						if *o != nil && walk(*o, d+1) {
+							return true
+						}
+					}
+				}
+				return false
+			}
+			return walk(v, 0)
+		}
+		for _, s := range eng.Sites(undo) {
+			nm := s.Name()
+			if _, isSetter := journalPairs[nm]; !isSetter && !strings.HasPrefix(nm, "(*storage/account.accessList).Delete") && nm != "(*storage/account.AccountDB).setBalance" && nm != "(*storage/account.AccountDB).setTransientState" && nm != "(*storage/account.AccountDB).setAccountObject" {
+				continue
+			}
+			args := s.Common().Args
+			for i := 1; i < len(args); i++ { // args[0] is the object the setter is called on
+				checked++
+				if !fromEntry(args[i]) {
+					r.Fail(rule, fmt.Sprintf("restore-from-entry:%s#%d", n, i), c.Pos(s.Pos()), "undo of "+n+" calls "+nm+" with "+eng.Desc(args[i])+" as argument "+fmt.Sprint(i)+", which does not come from what the entry recorded: that part of the previous state is not restored by the revert (e.g. code installed earlier in the same uncommitted block exists only in memory — restoring `nil` and re-reading by hash loses it)")
+				}
+			}
+		}
+	}
+	if checked >= 8 {
+		r.Pass(rule, "restore-from-entry:all", "", fmt.Sprintf("%d setter arguments in undo functions, all taken from the entry", checked))
+	} else {
+		r.Fail(rule, "restore-from-entry:sites", "", fmt.Sprintf("only %d setter arguments found in undo functions (≥8 expected)", checked))
+	}
 }
